@@ -151,7 +151,9 @@ func (h *Hook) matchesCurrent() (bool, bool, error) {
 		return false, false, err
 	}
 
-	by, err := io.ReadAll(io.LimitReader(file, 1024))
+	// Compare the whole file: a hook that merely begins like one of ours
+	// is the user's and must not be treated as upgradable.
+	by, err := io.ReadAll(file)
 	file.Close()
 	if err != nil {
 		return false, false, err
